@@ -727,6 +727,9 @@ func ObserveDB(db *nutsdb.DB, u *Universe) (o Ev, err error) {
 	defer func() {
 		if r := recover(); r != nil {
 			err = fmt.Errorf("panic during observation: %v", r)
+			if os.Getenv("VERIF_STACK") != "" {
+				fmt.Fprintf(os.Stderr, "panic during observation: %v\n%s\n", r, debug.Stack())
+			}
 		}
 	}()
 	kv := []Ev{}
@@ -740,6 +743,10 @@ func ObserveDB(db *nutsdb.DB, u *Universe) (o Ev, err error) {
 				continue
 			}
 			for _, x := range es {
+				if x == nil {
+					kv = append(kv, Ev{"b": b, "k": []int{}, "v": "<nil entry>"})
+					continue
+				}
 				kv = append(kv, Ev{"b": b, "k": K(x.Key), "v": string(x.Value)})
 			}
 		}
